@@ -56,6 +56,9 @@ def r1_value_ops(rep, ctx):
     m = ctx.model
     for opname in ("Sum", "Subtract"):
         fn, ret, callee, lams, args = dispatch.db_operation_facts(m, opname)
+        for xr in dispatch.db_operation_facts.extra_returns:
+            rep.bad("C03.R1", "UnitDatabase.%s:extra-return:%s" % (opname, norm(ast.unparse(xr))[:50]), "UnitDatabase.%s can return `%s` without going through the shared same-quantity routine (no dimension comparison, no unit matching)"
+                    % (opname, norm(ast.unparse(xr))[:80]), node=xr, fn=fn)
         want = dispatch.DB_OPS[opname][1]
         why = []
         if callee != "_DoOperationWithSameQuantity":
